@@ -382,7 +382,7 @@ class SymQ:
     bound: concrete Fraction >= |value| (or None); err: concrete Fraction >= |model - real value|.
     The model value is always the *exact* rational; kind/bound/err drive the exactness
     side-conditions (see PrecisionState)."""
-    __slots__ = ("num", "den", "kind", "bound", "err")
+    __slots__ = ("num", "den", "kind", "bound", "err", "sr")
 
     def __init__(self, num, den=1, kind=None, bound=None, err=0):
         assert isinstance(den, int) and den > 0
@@ -391,6 +391,7 @@ class SymQ:
         self.kind = kind
         self.bound = bound
         self.err = err
+        self.sr = False      # err stems from one correctly rounded operation on exact operands
 
     @staticmethod
     def of(x, kind=None):
@@ -451,6 +452,7 @@ class SymQ:
         if self.bound is None:
             PREC.flag("unbounded", what)
             return self
+        self.sr = (a.err == 0 and (b is None or b.err == 0))
         self.err = self.err + self.bound / (1 << prec)
         return self
 
@@ -581,6 +583,10 @@ class SymQ:
             # the model value is within err of a tie.  Ties are at distance 0 or >= 1/(2 den).
             if self.err >= Fraction(1, 2 * self.den):
                 PREC.flag("round-inexact", "round() of value with error bound %s" % float(self.err))
+            if self.sr and self.bound is not None and 2 * self.bound < (1 << 52):
+                # a single correctly rounded operation: an exact tie x.5 is representable, hence computed
+                # exactly and rounded half-to-even; any other value is further than err from a tie
+                return self.round_even_int()
             r = engine.cur()
             k = r.fresh_int("rnd")
             # |k - n/d| <= 1/2  (either neighbour at an exact tie: the sign of the error decides)
